@@ -196,15 +196,21 @@ def run_part(ctx: Ctx, data, prefix: str = PREFIX, salt: str = ''):
     t0 = time.time()
     rng = __import__('random').Random(f'{ctx.seed}:search-corr:{salt}')
     seeds = SEEDS_T if ctx.thorough else SEEDS_Q
-    jobs, dist = make_jobs(ctx, data, rng, ctx.scale(10, 80), ctx.scale(5, 24))
+    jobs, dist = make_jobs(ctx, data, rng, ctx.scale(10, 64), ctx.scale(5, 24))
     stats = collections.Counter()
     fam_hist, applied_hist, unmodelled_applied = collections.Counter(), collections.Counter(), collections.Counter()
     reqs, where = [], []
     for si, sd in enumerate(seeds):
         sub = [j for i, j in enumerate(jobs) if i % len(seeds) == si]
         plain = [{k: v for k, v in j.items() if k != 'probe'} for j in sub]
-        outs = tabrun.run_jobs(sub, order_seed=sd)
-        outs0 = tabrun.run_jobs(plain, order_seed=sd)
+        # the probed runs and the unprobed re-runs of one seed side by side (same chunking → same per-process job sequence)
+        import os
+        from concurrent.futures import ThreadPoolExecutor
+        half = max(2, (os.cpu_count() or 4) // 2)
+        with ThreadPoolExecutor(2) as ex:
+            f1 = ex.submit(tabrun.run_jobs, sub, sd, half)
+            f0 = ex.submit(tabrun.run_jobs, plain, sd, half)
+            outs, outs0 = f1.result(), f0.result()
         for j, o, o0 in zip(sub, outs, outs0):
             if 'error' in o:
                 stats['exception'] += 1
